@@ -416,5 +416,14 @@ class ConvolutionLemma(Contract):
             {
                 "PyVC.convolution_closed_form": "lemma_closed_form_is_the_convolution_with_the_area_normalised_gaussian",
                 "PyVC.erf_neg": "lemma_erf_is_odd",
+                "PyVC.erf_bounds": "lemma_erf_lies_strictly_between_minus_one_and_one",
             },
         )
+
+
+from contracts.common import FunctionAxiomsBase  # noqa: E402
+
+
+class FunctionAxioms(FunctionAxiomsBase):
+    abstract = False
+    prop = "C05"
